@@ -262,7 +262,25 @@ fn count_special(specs: &[EvSpec], special: &mut bool, edits: &mut bool) {
     }
 }
 
+/// every constructed event is the same event after each ownership / copy conversion of its type
+fn conversions_hold(specs: &[EvSpec]) -> Result<(), String> {
+    for s in specs {
+        if let EvSpec::Element(_, _, Content::Inner(inner)) = s {
+            conversions_hold(inner)?;
+        }
+        for e in build_events(s) {
+            if let Some(d) = crate::rec::conversion_defect(&e) {
+                return Err(format!("constructed from {:?}: {}", s, d));
+            }
+        }
+    }
+    Ok(())
+}
+
 pub fn check(c: &Case) -> Verdict {
+    if let Err(m) = conversions_hold(&c.events) {
+        return Verdict::fail(m);
+    }
     let mut w = Writer::new(Vec::new());
     if let Err(e) = write_sync(&mut w, &c.events) {
         return Verdict::fail(format!("writer failed: {}", e));
